@@ -220,6 +220,25 @@ CLAIMED: dict[str, tuple[str, str, str, str]] = {
             "play); Python's 64-bit hash() treated as injective; `covered` = line ranges intersect; quick tier "
             "samples 4 000 of the 43 560 two-file projects.",
             TECH),
+    "C19": ("DESIGN.md §5 C19",
+            "spec/DocExamples.tla defines embeddings of a documented example (0..2 enclosing frames out of "
+            "function / class / if / try / with / for / while, filler blocks before and after, an unrelated inner "
+            "statement, 1..3 copies, identifier renaming, a sibling file binding the example's identifiers), which "
+            "embeddings are valid for which kind of fragment, where every copy starts (Start) and the verdict of a "
+            "file (documented occurrences shifted to every copy, nothing else inside a copy, nothing on filler "
+            "lines); TLC checks the laws of that requirement on every embedding (7 371 quick / 49 k thorough) and "
+            "emits them; every usable source fence of docs/*-linter.md (430 examples in a curated catalogue, text "
+            "re-read from the docs at run time; explicit doc claims override the recorded baseline) is rendered "
+            "under sampled valid embeddings (Python / TypeScript / Rust renderers, layout cross-checked against "
+            "Start by the trace specification), linted by the owning linter (Linter.lint for cqs) in a fresh "
+            "process, cross-file linters as pairs, multi-file fences split into their files; plus gallery runs "
+            "(all examples of a doc in one run, both orders); DocExamplesTrace.tla judges every file "
+            "(Missing / Extra / AcceptableReported / FillerReported), cross-checked with a Python mirror.",
+            "What an example documents was decided once by reading the docs (overrides file, reasons for every "
+            "skipped fence); context independence only for the pattern linters the property names; Rust renaming "
+            "and loops around loop-sensitive rules are not generated; file-placement has no source examples "
+            "(C18 covers its rules).",
+            TECH),
 }
 
 REASON_NOT_YET = ("no check registered yet in this build; the TLA+ technique applies (see DESIGN.md §5) "
